@@ -35,6 +35,10 @@ type Case struct {
 	Flipped  int `json:"flipped,omitempty"`
 	Decoys   int `json:"decoys,omitempty"`
 	Carriers int `json:"circular_carriers,omitempty"`
+	// Cassettes / Overlapped: parts that carry more than one cassette; joints at which the reverse site of one
+	// cassette and the forward site of the next share letters
+	Cassettes  int `json:"several_cassettes,omitempty"`
+	Overlapped int `json:"overlapped_sites,omitempty"`
 	// NoExclusion: judge the case even if a carrier's rotation is in the class of the known finding (used by its witness)
 	NoExclusion bool `json:"no_exclusion,omitempty"`
 }
@@ -100,7 +104,7 @@ func referenceFrags(c Case) ([]refclone.Frag, string) {
 	e := refclone.BuiltIn[c.Enzyme]
 	var frags []refclone.Frag
 	for i, p := range c.Parts {
-		fs, L := refclone.Digest(p.Seq, p.Circular, e)
+		fs, L := refclone.Digest(p.Seq, p.Circular, e, true)
 		if !L.Valid {
 			return nil, fmt.Sprintf("part %d: %s", i, L.Why)
 		}
@@ -269,6 +273,12 @@ func labels(c Case) []string {
 	if c.Carriers > 0 {
 		l = append(l, "has circular carrier")
 	}
+	if c.Cassettes > 0 {
+		l = append(l, "has a part with several cassettes")
+	}
+	if c.Overlapped > 0 {
+		l = append(l, "has overlapping reverse and forward sites")
+	}
 	return l
 }
 
@@ -433,7 +443,16 @@ func genGoldenGateFor(t *rapid.T, forced ...int) Case {
 	e := refclone.BuiltIn[name]
 	d := drawDesign(t, e.OverhangLen, vk.Pick(12, 27), forced...)
 	c := Case{Kind: "goldengate", Enzyme: name, Decoys: d.decoys}
-	for i, f := range d.frags {
+	// the longest suffix of the reverse site that is a prefix of the forward site (BtgZI: CATCGC / GCGATG share GC)
+	shared := 0
+	for k := len(e.Site) - 1; k > 0; k-- {
+		if strings.HasSuffix(ref.RevComp(e.Site), e.Site[:k]) {
+			shared = k
+			break
+		}
+	}
+	for i := 0; i < len(d.frags); i++ {
+		f := d.frags[i]
 		pad := func(nm string) string { return word(t, fmt.Sprintf("part%d_%s", i, nm), e.Skip, "ACGT") }
 		flank := func(nm string, lo int) string {
 			n := lo
@@ -443,6 +462,30 @@ func genGoldenGateFor(t *rapid.T, forced ...int) Case {
 			return word(t, fmt.Sprintf("part%d_%s", i, nm), n, "AT")
 		}
 		core := e.Site + pad("skipL") + f.Fwd + f.Seq + f.Rev + pad("skipR") + ref.RevComp(e.Site)
+		// one part in four carries further cassettes (the next fragments of the design) behind the first: back to back
+		// with the two sites sharing their common letters where the enzyme allows it, abutting, or after a gap
+		for first := i; i+1 < len(d.frags) && i-first < 3 && rapid.IntRange(0, 3).Draw(t, fmt.Sprintf("part%d_further_cassette", i)) == 0; {
+			i++
+			g := d.frags[i]
+			next := e.Site + pad("skipL") + g.Fwd + g.Seq + g.Rev + pad("skipR") + ref.RevComp(e.Site)
+			if rapid.Bool().Draw(t, fmt.Sprintf("part%d_cassette_reversed", i)) {
+				next = ref.RevComp(next)
+			}
+			switch joint := rapid.IntRange(0, 3).Draw(t, fmt.Sprintf("part%d_joint", i)); {
+			case joint == 0 && shared > 0:
+				core += next[shared:]
+				c.Overlapped++
+			case joint <= 1:
+				core += next
+			case joint == 2:
+				core += word(t, fmt.Sprintf("part%d_gap", i), rapid.IntRange(1, 3).Draw(t, fmt.Sprintf("part%d_gap_len", i)), "ACGT") + next
+			default:
+				core += word(t, fmt.Sprintf("part%d_gap", i), rapid.IntRange(4, 30).Draw(t, fmt.Sprintf("part%d_gap_len", i)), "AT") + next
+			}
+			if i-first == 1 {
+				c.Cassettes++
+			}
+		}
 		p := PartSpec{}
 		if rapid.IntRange(0, 2).Draw(t, fmt.Sprintf("part%d_circular", i)) == 0 {
 			// circular carrier: backbone of 10..60 bases, stored at a drawn rotation
